@@ -2,7 +2,7 @@
 from ..runner import Result
 from . import common
 
-PROFILE = {'name': 'c08', 'max_clients': 6, 'hostile_masks': False, 'mp_rate': 0.5, 'weights': {'connect': 6, 'end': 2, 'quit': 1, 'join': 12, 'part': 2, 'kick': 2, 'topic': 2, 'invite': 2, 'cmode': 45, 'umode': 2, 'nick': 2, 'privmsg': 3, 'notice': 2, 'away': 1, 'oper': 1, 'kill': 0.5, 'wallops': 0.5, 'stats': 0.3, 'die': 0.1, 'squit': 0.1, 'names': 3, 'who': 2, 'whois': 1, 'list': 0.5, 'lusers': 0.5, 'ison': 0.3, 'userhost': 0.3, 'whowas': 0.3, 'chanlist': 4, 'cquery': 4}, 'mode_weights': {'q': 4, 'a': 4, 'o': 6, 'h': 6, 'v': 5}}
+PROFILE = {'name': 'c08', 'max_clients': 6, 'hostile_masks': False, 'mp_rate': 0.5, 'weights': {'connect': 6, 'end': 2, 'quit': 1, 'join': 12, 'part': 2, 'kick': 7, 'topic': 2, 'invite': 2, 'cmode': 45, 'umode': 2, 'nick': 2, 'privmsg': 3, 'notice': 2, 'away': 1, 'oper': 1, 'kill': 0.5, 'wallops': 0.5, 'stats': 0.3, 'die': 0.1, 'squit': 0.1, 'names': 3, 'who': 2, 'whois': 1, 'list': 0.5, 'lusers': 0.5, 'ison': 0.3, 'userhost': 0.3, 'whowas': 0.3, 'chanlist': 4, 'cquery': 4}, 'mode_weights': {'q': 4, 'a': 4, 'o': 6, 'h': 6, 'v': 5}}
 
 
 def run(ctx):
@@ -21,6 +21,8 @@ def run(ctx):
     res.assumptions = ["observation at the client sockets with the barrier protocol (DESIGN 2.3)",
                        "snapshot hook reads the state under the server's own lock",
                        "reference model of DESIGN 2.4 encodes the statement; unspecified choices are resynchronised, not judged"]
+    # every rank against every rank, deterministically: KICK, TOPIC on +t, INVITE on +i, MODE +v by each of 8 rank sets
+    common.run_rank_matrix(ctx, res, ("C08",))
     return res
 
 
